@@ -7,6 +7,7 @@ import (
 	"strings"
 	"syscall"
 	"testing"
+	"time"
 )
 
 // C03: request/response framing and the per-connection state machine.
@@ -79,7 +80,7 @@ func TestC03(t *testing.T) {
 	if r.Thorough() {
 		depth = 4
 	}
-	r.Rule("all request sequences of length <= depth over a 41-request alphabet (incl. a directory and a generated image opened as a file) covering the 15 opcodes in success and failure form plus unknown opcodes, x writing enabled/disabled; every truncation point of every request as last request after every 1-request prefix; whole/1-byte/7-byte delivery; the same sequences pipelined in one piece (stream = concatenation of the one-by-one answers); listings of directories of 4095 / 4096 / 4097 / 5000 (thorough: 65537) entries followed by further requests; an upload whose storing fails (ENOSPC, EIO, partial write) at every write of a 70000-byte payload with three transfer buffer configurations; a case is distinct by (allow-write, executed request prefix, delivery)")
+	r.Rule("all request sequences of length <= depth over a 41-request alphabet (incl. a directory and a generated image opened as a file) covering the 15 opcodes in success and failure form plus unknown opcodes, x writing enabled/disabled; every truncation point of every request as last request after every 1-request prefix, ended by the client's FIN or by silence until the read timeout; whole/1-byte/7-byte delivery; the same sequences pipelined in one piece (stream = concatenation of the one-by-one answers); listings of directories of 4095 / 4096 / 4097 / 5000 (thorough: 65537) entries followed by further requests; an upload whose storing fails (ENOSPC, EIO, partial write) at every write of a 70000-byte payload with three transfer buffer configurations; a case is distinct by (allow-write, executed request prefix, delivery)")
 	r.Extra("depth", depth)
 	r.Extra("alphabet", len(alpha))
 
@@ -115,11 +116,11 @@ func TestC03(t *testing.T) {
 			cw.resetW()
 		}
 		m := newModel(cw.w.Root, allow)
-		res := runSession(t, SrvOpts{Root: cw.w.Root, AllowWrite: allow}, m, seq, d)
+		res := runSession(t, SrvOpts{Root: cw.w.Root, AllowWrite: allow, Timeout: d.StallT}, m, seq, d)
 		r.Transition(int64(len(res.Steps)))
 		r.Eval(1)
 		var key strings.Builder
-		key.WriteString(sprintf("%v|%d|%d", allow, d.Chunk, d.MaxRead))
+		key.WriteString(sprintf("%v|%d|%d|%v", allow, d.Chunk, d.MaxRead, d.StallT))
 		for _, st := range res.Steps {
 			key.WriteString("|" + st.Req)
 			r.Outcome(st.Class)
@@ -238,6 +239,11 @@ func TestC03(t *testing.T) {
 				}
 				seq = append(seq, truncReq(last, cut))
 				runOne(true, seq, Delivery{})
+				// the same cut followed by silence instead of FIN (the read timeout has to end it), in both modes
+				if cut <= 17 || cut >= len(enc)-2 || cut%9973 == 0 {
+					runOne(true, seq, Delivery{StallT: 30 * time.Second})
+					runOne(false, seq, Delivery{StallT: 30 * time.Second})
+				}
 			}
 		}
 	}
